@@ -58,6 +58,42 @@ fn failed(st: &str) -> Value {
         "rtl": [0], "rtneg": false, "serde_rt": false})
 }
 
+fn na() -> Value {
+    failed("na")
+}
+
+/// `From` conversions of the operand where the source type can hold it (else "na")
+fn conversions(a: &Integer) -> Value {
+    let m = a.value.u128();
+    let neg = a.negative && m != 0;
+    let signed = |lim: u128| -> Option<i128> {
+        if neg {
+            if m <= lim + 1 { Some((-((m - 1) as i128)) - 1) } else { None }
+        } else if m <= lim {
+            Some(m as i128)
+        } else {
+            None
+        }
+    };
+    let s = a.to_string();
+    json!({
+        "i128": match signed(i128::MAX as u128) { Some(v) => guarded(|| Integer::from(v)), None => na() },
+        "i64": match signed(i64::MAX as u128) { Some(v) => guarded(|| Integer::from(v as i64)), None => na() },
+        "i32": match signed(i32::MAX as u128) { Some(v) => guarded(|| Integer::from(v as i32)), None => na() },
+        "i16": match signed(i16::MAX as u128) { Some(v) => guarded(|| Integer::from(v as i16)), None => na() },
+        "i8": match signed(i8::MAX as u128) { Some(v) => guarded(|| Integer::from(v as i8)), None => na() },
+        "u128": if !neg { guarded(|| Integer::from(m)) } else { na() },
+        "uint128": if !neg { guarded(|| Integer::from(Uint128::from(m))) } else { na() },
+        "u64": if !neg && m <= u64::MAX as u128 { guarded(|| Integer::from(m as u64)) } else { na() },
+        "u32": if !neg && m <= u32::MAX as u128 { guarded(|| Integer::from(m as u32)) } else { na() },
+        "u16": if !neg && m <= u16::MAX as u128 { guarded(|| Integer::from(m as u16)) } else { na() },
+        "u8": if !neg && m <= u8::MAX as u128 { guarded(|| Integer::from(m as u8)) } else { na() },
+        "str": guarded(|| Integer::from(s.as_str())),
+        "string": guarded(|| Integer::from(s.clone())),
+        "default": observe(Integer::default()),
+    })
+}
+
 fn guarded<F: FnOnce() -> Integer>(f: F) -> Value {
     match catch_unwind(AssertUnwindSafe(f)) {
         Ok(i) => observe(i),
@@ -76,7 +112,8 @@ fn checked<E, F: FnOnce() -> Result<Integer, E>>(f: F) -> Value {
 pub fn table<W: Write>(out: &mut W) {
     let max = u128::MAX;
     let mags: Vec<u128> = vec![
-        0, 1, 2, 3, 5, 7, 10, 9999, 10000, (1u128 << 64) - 1, 1u128 << 64, (1u128 << 64) + 1,
+        0, 1, 2, 3, 5, 7, 10, 127, 128, 129, 9999, 10000, 32767, 32768, (1u128 << 31) - 1, 1u128 << 31, (1u128 << 63) - 1,
+        1u128 << 63, (1u128 << 64) - 1, 1u128 << 64, (1u128 << 64) + 1,
         10u128.pow(19), (1u128 << 127) - 1, 1u128 << 127, (1u128 << 127) + 1, max / 2, max / 3, 10u128.pow(38),
         max - 2, max - 1, max,
     ];
@@ -94,6 +131,9 @@ pub fn table<W: Write>(out: &mut W) {
                 "add": guarded(|| a + b), "sub": guarded(|| a - b), "mul": guarded(|| a * b), "div": guarded(|| a / b),
                 "cadd": checked(|| a.checked_add(b)), "csub": checked(|| a.checked_sub(b)),
                 "cmul": checked(|| a.checked_mul(b)), "cdiv": checked(|| a.checked_div(b)),
+                "adda": guarded(|| { let mut x = a; x += b; x }), "suba": guarded(|| { let mut x = a; x -= b; x }),
+                "mula": guarded(|| { let mut x = a; x *= b; x }), "diva": guarded(|| { let mut x = a; x /= b; x }),
+                "conv": conversions(&a),
                 "nega": guarded(|| a.invert_sign()), "absa": guarded(|| a.abs()), "ida": observe(a),
                 "lt": a < b, "le": a <= b, "gt": a > b, "ge": a >= b, "eq": a == b, "ne": a != b,
                 "cmp": match a.cmp(&b) { std::cmp::Ordering::Less => -1, std::cmp::Ordering::Equal => 0, _ => 1 },
